@@ -224,7 +224,7 @@ func checkFillProvenance(p *Prog, r *Report, fill *ssa.Function) {
 				if s.Has(a) {
 					lf := litFields(s, a)
 					e := sxSeg(s, lf["TypeCode"], 0)
-					if e != "github.com/google/gopacket/layers.CreateICMPv4TypeCode(f.typ,f.code)" {
+					if e != "github.com/google/gopacket/layers.CreateICMPv4TypeCode(f.typ,f.code)" && !isTypeCodeWord(s, lf["TypeCode"]) {
 						okT, whyT = false, "TypeCode is "+e+", expected CreateICMPv4TypeCode(f.typ, f.code)"
 					}
 				}
@@ -349,6 +349,10 @@ func checkSerialisation(p *Prog, r *Report, fill *ssa.Function) {
 		n++
 		c := ser[0].Instr.(*ssa.Call)
 		elems, ok := VariadicElems(c.Call.Args[2])
+		if !ok {
+			// a layer list assembled in a local slice on this path
+			elems, ok = PathElems(s, c.Call.Args[2], 0)
+		}
 		if !ok {
 			okL, whyL = false, "layers are not passed in place"
 			continue
@@ -1026,4 +1030,31 @@ func ctorDefault(ctor *ssa.Function, field string) (ssa.Value, bool) {
 		}
 	}
 	return v, v != nil
+}
+
+// isTypeCodeWord: v is the 16-bit word typ<<8 | code built from the filler's type and code fields (what
+// layers.CreateICMPv4TypeCode computes), the shift carried out in at least 16 bits.
+func isTypeCodeWord(s *Seg, v ssa.Value) bool {
+	or, ok := stripConvAll(s.Resolve(v)).(*ssa.BinOp)
+	if !ok || (or.Op != token.OR && or.Op != token.ADD) {
+		return false
+	}
+	isField := func(x ssa.Value, name string) bool {
+		_, f, isF := fieldLoad(stripConvAll(s.Resolve(x)))
+		return isF && f == name
+	}
+	check := func(hi, lo ssa.Value) bool {
+		sh, isSh := stripConvAll(s.Resolve(hi)).(*ssa.BinOp)
+		if !isSh || sh.Op != token.SHL {
+			return false
+		}
+		if k, isK := constInt(sh.Y); !isK || k != 8 {
+			return false
+		}
+		if b, _, okB := typeBits(sh.Type()); !okB || b < 16 {
+			return false
+		}
+		return isField(sh.X, "typ") && isField(lo, "code")
+	}
+	return check(or.X, or.Y) || check(or.Y, or.X)
 }
